@@ -14,7 +14,7 @@ every rd with this model.
 -/
 import Hts.Spec.FlatFile
 namespace Hts.Model.Bgzf
-open Hts.Spec.Flat (Offset Chunk vOffset)
+open Hts.Spec.Flat (Offset Chunk vOffset Op)
 
 /-- One gzip member: payload and compressed size (`NextBase − Base`). -/
 structure Member where
@@ -221,13 +221,6 @@ def blockLen (r : Reader) : Nat := r.cur.len
 
 end Reader
 
-/-- Operations of a history. -/
-inductive Op where
-  | read (n : Nat)
-  | readByte
-  | seek (o : Offset)
-  | setBlocked (b : Bool)
-
 /-- What one operation returns. -/
 structure Out where
   bytes : List UInt8
@@ -243,5 +236,16 @@ def Reader.step (r : Reader) : Op → Reader × Out
 def Reader.run (r : Reader) : List Op → List (Out × Reader)
   | [] => []
   | op :: ops => let (r', o) := r.step op; (o, r') :: Reader.run r' ops
+
+/-- The flat view of a file: what `Hts.Spec.Flat` is about. -/
+def flatBytes : File → List UInt8
+  | [] => []
+  | m :: rest => m.data ++ flatBytes rest
+
+def layoutOf : File → Hts.Spec.Flat.Layout
+  | [] => []
+  | m :: rest => ⟨m.data.length, m.csize⟩ :: layoutOf rest
+
+def flatOf (f : File) : Hts.Spec.Flat.FlatFile := ⟨flatBytes f, layoutOf f⟩
 
 end Hts.Model.Bgzf
